@@ -6,6 +6,7 @@ BINARIES = {
     'c10pie': {'pkg': './cmd/c10', 'overlay': 'plain', 'flags': _FLAGS + ['-buildmode=pie']},
     # externally linked (cgo) binary with its symbol table: the link mode of goom's own root-package tests
     'c10cgo': {'pkg': './cmd/c10cgo', 'overlay': 'plain', 'flags': _FLAGS},
+    'c10race': {'pkg': './cmd/c10cgo', 'overlay': 'plain', 'flags': ['-race', '-gcflags=all=-l -d=checkptr=0']},
 }
 
 SPEC = {
@@ -30,6 +31,8 @@ SPEC = {
         # fault sequences: shard index = which of the process' first three lookups cannot open the executable
         {'bin': 'c10cgo', 'shards': 8, 'sub': 'cgo-fault'},
         {'bin': 'c10', 'shards': 8, 'sub': 'default-fault'},
+        # free-running -race side pass: concurrent first lookups (one fresh process per shard)
+        {'bin': 'c10race', 'shards': 12, 'sub': 'cgo-race', 'race_log': True, 'death_is_violation': True, 'env': {'GORACE': 'halt_on_error=0'}},
     ],
     'rule': 'engine E. Space per link configuration: N = {runtime function names (FuncForPC walk over every byte of every '
             'executable mapping of the image)} + {pclntab names via debug/gosym, non-PIE} for FindFuncByName; '
